@@ -185,6 +185,12 @@ def capsule_tree(rng, base: str, symlinks=True, odd_names=True, root_via_symlink
                 add_file(p, True)
     if rng.random() < 0.4:
         add_file(os.path.join(real_root, "n" * 200 + ".gmi"), True)
+    # a regular file of zero bytes (a placeholder page, a truncated export): it has no sentinel, its record says so
+    for d in rng.sample(dirs, min(len(dirs), 2)):
+        p = os.path.join(d, rng.choice(["empty.gmi", "placeholder.txt", "zero"]))
+        if not os.path.exists(p):
+            open(p, "wb").close()
+            meta["files"].append({"abs": p, "token": None, "content": b"", "name": os.path.basename(p)})
     if odd_names and rng.random() < 0.6:
         # one visible name, two Unicode forms, two files (and a case twin): each path must get its own file
         d = rng.choice(dirs)
